@@ -90,9 +90,12 @@ func (server *Server) SMembers(conn *redis.Conn, key string) (*redis.Message, er
 	if err != nil {
 		return nil, err
 	}
-	_, set, err := db.GetSetRecord(key)
+	_, set, err := db.FindSetRecord(key)
 	if err != nil {
 		return nil, err
+	}
+	if set == nil {
+		set = NewSet()
 	}
 	arrayMsg := redis.NewArrayMessage()
 	array, _ := arrayMsg.Array()
@@ -108,9 +111,12 @@ func (server *Server) SRem(conn *redis.Conn, key string, members []string) (*red
 	if err != nil {
 		return nil, err
 	}
-	_, set, err := db.GetSetRecord(key)
+	_, set, err := db.FindSetRecord(key)
 	if err != nil {
 		return nil, err
+	}
+	if set == nil {
+		set = NewSet()
 	}
 	return redis.NewIntegerMessage(set.Rem(members)), nil
 }
